@@ -10,6 +10,7 @@ cloudpickle by value, like actors defined in ``__main__`` or a notebook).
 
 Nothing in here is an oracle: the expected outputs are computed in checks/c13.py from its own flavour table.
 """
+import functools
 import pickle
 
 from forml import flow
@@ -283,6 +284,35 @@ WrapCallable = wrap.Actor.type(
     Gadget,
     train=lambda g, features, labels: g.learn((features, labels)),
     apply=lambda g, *features: ('wc', *g.infer(features)),
+    get_params=lambda g: g.config(),
+    set_params=lambda g, **params: g.configure(params),
+)
+
+
+def _gadget_learn(gadget, features, labels, mark=None):
+    del mark
+    gadget.learn((features, labels))
+
+
+class _GadgetLearner:
+    """A training implementation given as a callable *object* (neither a method name nor a plain function)."""
+
+    def __call__(self, gadget, features, labels):
+        gadget.learn((features, labels))
+
+
+# the same actor with its training implementation mapped to other kinds of callables: a functools.partial, a callable object
+WrapPartial = wrap.Actor.type(
+    Gadget,
+    train=functools.partial(_gadget_learn, mark='p'),
+    apply=lambda g, *features: ('wp', *g.infer(features)),
+    get_params=lambda g: g.config(),
+    set_params=lambda g, **params: g.configure(params),
+)
+WrapCallableObject = wrap.Actor.type(
+    Gadget,
+    train=_GadgetLearner(),
+    apply=lambda g, *features: ('wo', *g.infer(features)),
     get_params=lambda g: g.config(),
     set_params=lambda g, **params: g.configure(params),
 )
